@@ -133,8 +133,10 @@ class Position(NamedTuple):
 
     def line_of(self) -> str:
         """Return the line of text that contains this position."""
+        lines = self.text.splitlines(keepends=True)
         line_number, _ = self.line_col()
-        return self.text[line_number - 1]
+        # The position after a trailing newline is on a new, empty line.
+        return lines[line_number - 1] if line_number <= len(lines) else ""
 
 
 class Pair:
